@@ -604,6 +604,14 @@ func (p *Prog) verifyFunc(name string) *Exec {
 			ex.entryParams[gp[0]] = &GVal{T: gc, Typ: typeByName(p, gp[1])}
 		}
 	}
+	if fn.Pkg != nil && fn.Pkg == p.mainPkg {
+		// observable effects of the command: ghost traces, symbolic at entry
+		for _, k := range ioGhosts {
+			ex.entry.ghost[k.name] = p.NamedConst(k.name+"@entry_"+ex.fname0(), k.sort)
+		}
+		ex.addFact(Le(IntLit(0), ex.entry.ghost["stdoutCount"]))
+		ex.addFact(Le(IntLit(0), ex.entry.ghost["stderrCount"]))
+	}
 	ex.st = ex.entry.clone()
 	if c != nil {
 		env := fr.entryEnv()
